@@ -237,7 +237,11 @@ class RecordingStack(BaseNetworkStack):
         self.requests = []
         self.sockets = []
 
+    reject_over = None          # a stack that refuses requests for more than this many pairs
+
     def put(self, request):
+        if self.reject_over is not None and request.number > self.reject_over:
+            raise RuntimeError(f"the network stack refuses a request for {request.number} pairs")
         self.requests.append(request)
 
     def setup_epr_socket(self, epr_socket_id, remote_node_id, remote_epr_socket_id, timeout=1.0):
@@ -255,6 +259,8 @@ class EprRun:
         self.scn = scn
         self.ex = fresh_executor(node_id=0)
         self.stack = RecordingStack()
+        self.stack.reject_over = scn.get("reject_over")
+        self.pending_recover = False
         self.ex.network_stack = self.stack
         self.app = 0
         self.ex.init_new_application(app_id=0, max_qubits=scn["umsize"])
@@ -297,6 +303,13 @@ class EprRun:
 
     def step(self) -> str:
         """'stepped' | 'blocked' | 'finished' | 'fault'"""
+        if self.pending_recover:
+            # the host sends the application's next subroutine after the error
+            self.pending_recover, self.fault, self.finished = False, None, False
+            self.cur += 1
+            self.sub_id = self.ex._next_subroutine_id
+            self.gen = self.ex.execute_subroutine(Subroutine(instructions=[self._mk(i) for i in self.progs[self.cur]], app_id=0, netqasm_version=(0, 0)))
+            return "recovered"
         if self.finished:
             return "finished"
         while True:
@@ -314,6 +327,8 @@ class EprRun:
             except Exception as exc:
                 self.finished = True
                 self.fault = f"{type(exc).__name__}: {str(exc).splitlines()[0]}"[:200]
+                if self.scn.get("recover") and self.cur + 1 < len(self.progs):
+                    self.pending_recover = True
                 return "fault"
             if y == STEP:
                 self._sync_net()
@@ -405,7 +420,9 @@ class EprRun:
             r = self.step()
             if r == "blocked":
                 return None
-            if r == "next-subroutine":
+            if r == "recovered":
+                ev = {"a": "recover"}
+            elif r == "next-subroutine":
                 ev = {"a": "finish"}
             elif r == "finished":
                 self._last_pc = pre["pc"]
@@ -428,7 +445,7 @@ class EprRun:
         acts = []
         if self.herr:
             return acts
-        if not self.finished:
+        if not self.finished or self.pending_recover:
             acts.append(("step",))
         acts += [("deliver", s) for s in self.deliverable()]
         if self.ex._pending_epr_responses:
